@@ -35,3 +35,10 @@ Proof. vm_compute. reflexivity. Qed.
 Example C02_non_dividing_is_contradiction :
   propagate 10 10 [] [(CProd [CV 0%nat; CN 3], 4)] = Contra.
 Proof. vm_compute. reflexivity. Qed.
+
+(* a concatenation of k parts, each at least 1, cannot be shorter than k: "(a + b) c" against (1, 3) has no solution
+   (the case einx accepts, known finding F19) *)
+Example C02_sum_shorter_than_its_parts_is_contradiction :
+  propagate 10 10 [] [(CSum [CV 0%nat; CV 1%nat], 1); (CV 2%nat, 3)] = Contra
+  /\ propagate 10 10 [] [(CSum [CV 0%nat; CV 1%nat; CV 3%nat], 5); (CV 2%nat, 3); (CV 0%nat, 4)] = Contra.
+Proof. vm_compute. split; reflexivity. Qed.
